@@ -145,8 +145,13 @@ def run_project(case, h, cldr):
     outs = {}
     for order in ("fwd", "rev"):
         env = dict(os.environ, CARGO_NET_OFFLINE="true", CARGO_TARGET_DIR=replay.TARGET, VERIF_ORDER=order)
-        p = subprocess.run(["cargo", "run", "--quiet"], cwd=replay.CRATE, env=env, capture_output=True, text=True, timeout=1800)
+        try:
+            p = subprocess.run(["cargo", "run", "--quiet"], cwd=replay.CRATE, env=env, capture_output=True, text=True, timeout=1800)
+        finally:
+            if order == "rev":
+                replay.unlock()
         if p.returncode != 0:
+            replay.unlock()
             raise replay.ReplayError("replay crate failed: %s" % p.stderr[-2500:])
         for l in p.stdout.split("\n"):
             parts = l.split("\t")
